@@ -174,28 +174,79 @@ func canon(v interface{}) string {
 	return string(b)
 }
 
-// marshalCheck: the result must marshal, and re-reading the text must give the same value (C10).
-func marshalCheck(res interface{}, proj M) string {
-	b, err := json.Marshal(res)
+// marshalView is the value as json.Marshal sees it: function values stand for empty strings and
+// nil slices/maps for null (C10: "the JSON encoding of that same value").
+func marshalView(v interface{}) (M, error) {
+	b, err := json.Marshal(v)
 	if err != nil {
-		return "fail"
+		return nil, err
 	}
 	var back interface{}
 	if err := json.Unmarshal(b, &back); err != nil {
+		return nil, err
+	}
+	return project(back)
+}
+
+// nilsAsEmpty maps the projection of a result to what marshalling may turn it into when
+// the Go value holds nil slices: an empty array may appear as null.
+func sameUpToNilSlices(a, b interface{}) bool {
+	am, aok := a.(map[string]interface{})
+	bm, bok := b.(map[string]interface{})
+	if !aok || !bok {
+		return canon(a) == canon(b)
+	}
+	if am["t"] == "arr" && bm["t"] == "null" {
+		v, _ := am["v"].([]interface{})
+		return len(v) == 0
+	}
+	if am["t"] != bm["t"] {
+		return false
+	}
+	switch am["t"] {
+	case "arr":
+		av, _ := am["v"].([]interface{})
+		bv, _ := bm["v"].([]interface{})
+		if len(av) != len(bv) {
+			return false
+		}
+		for i := range av {
+			if !sameUpToNilSlices(av[i], bv[i]) {
+				return false
+			}
+		}
+		return true
+	case "obj":
+		ap, _ := am["m"].([]interface{})
+		bp, _ := bm["m"].([]interface{})
+		if len(ap) != len(bp) {
+			return false
+		}
+		for i := range ap {
+			x, y := ap[i].([]interface{}), bp[i].([]interface{})
+			if canon(x[0]) != canon(y[0]) || !sameUpToNilSlices(x[1], y[1]) {
+				return false
+			}
+		}
+		return true
+	}
+	return canon(a) == canon(b)
+}
+
+// marshalCheck: the result must marshal, and re-reading the text must give the same value (C10).
+func marshalCheck(res interface{}, proj M) string {
+	pb, err := marshalView(res)
+	if err != nil {
 		return "fail"
 	}
-	pb, perr := project(back)
-	if perr != nil {
-		return "fail"
-	}
-	if canon(pb) != canon(replaceFn(proj)) {
+	if !sameUpToNilSlices(replaceFn(proj), pb) {
 		return "diff"
 	}
 	return "ok"
 }
 
 // evalBytesCheck: EvalBytes must succeed exactly when Eval does and return the encoding of the same value.
-func evalBytesCheck(e *jsonata.Expr, input interface{}, out M) (res string) {
+func evalBytesCheck(e *jsonata.Expr, input interface{}, out M, rawRes interface{}) (res string) {
 	defer func() {
 		if r := recover(); r != nil {
 			res = "panic"
@@ -227,7 +278,11 @@ func evalBytesCheck(e *jsonata.Expr, input interface{}, out M) (res string) {
 	if perr != nil {
 		return "invalid-json"
 	}
-	if canon(pb) != canon(replaceFn(out["r"])) {
+	want, err := marshalView(rawRes)
+	if err != nil {
+		return "failed-to-marshal-eval-result"
+	}
+	if canon(pb) != canon(want) {
 		return "different-value"
 	}
 	return "ok"
@@ -346,7 +401,7 @@ func runCase(rq *request) M {
 	if out["o"] == "val" {
 		ev["mar"] = marshalCheck(rawRes, out["r"].(M))
 	}
-	ev["eb"] = evalBytesCheck(e, input, out)
+	ev["eb"] = evalBytesCheck(e, input, out, rawRes)
 
 	// C05 ride-along: a second evaluation of the same expression on the same input
 	out2 := safeEval(e, input)
